@@ -33,6 +33,7 @@ type Config struct {
 	MaxPaths   int
 	Timeout    time.Duration
 	Witness    bool
+	Hangs      bool
 	Known      []KnownFinding
 	Workers    int
 	SolverBin  string
@@ -224,6 +225,12 @@ func (e *Engine) runPath(entry *ssa.Function, prefix []int) {
 			sh.res.Aborts[x.why+" @"+e.top()]++
 		case outOfBound:
 			sh.res.Bounds[x.why]++
+			if sh.cfg.Hangs && (strings.HasPrefix(x.why, "step budget") || strings.HasPrefix(x.why, "call depth")) {
+				// a path that exhausts the unwinding bound is a non-termination candidate (confirmed natively under a watchdog)
+				sh.mu.Unlock()
+				e.reportPanic(hangCandidate{x.why})
+				sh.mu.Lock()
+			}
 		case goPanic, frozenWrite:
 			// handled below (needs the lock released)
 			sh.mu.Unlock()
@@ -299,6 +306,8 @@ func (e *Engine) reportPanic(r interface{}) {
 	}()
 	kind, msg := "panic", ""
 	switch x := r.(type) {
+	case hangCandidate:
+		kind, msg = "hang", "unwinding bound exhausted: "+strings.SplitN(x.why, " in ", 2)[0]
 	case goPanic:
 		msg = normalisePanic(x.msg)
 		if x.stack != nil {
@@ -308,6 +317,15 @@ func (e *Engine) reportPanic(r interface{}) {
 		kind, msg = "frozen", x.msg
 	}
 	fn, _ := e.blameFunc()
+	if kind == "hang" {
+		// where the budget ran out is arbitrary: name the outermost function of the code under test
+		for _, f := range e.stack {
+			if !isHarnessFunc(f) && isUnderTest(f) {
+				fn = f.String()
+				break
+			}
+		}
+	}
 	if kind == "panic" && len(e.stack) > 0 && isHarnessFunc(e.stack[len(e.stack)-1]) && !strings.HasPrefix(msg, "explicit panic") {
 		kind = "harness"
 	}
@@ -384,6 +402,8 @@ func (sh *Shared) worker(entry *ssa.Function, wg *sync.WaitGroup, deadline time.
 		sh.cond.Broadcast()
 	}
 }
+
+type hangCandidate struct{ why string }
 
 type solverStats struct {
 	mu                           sync.Mutex
@@ -498,6 +518,7 @@ func main() {
 	maxDepth := flag.Int("maxdepth", 150, "")
 	timeout := flag.Duration("timeout", 10*time.Minute, "per entry")
 	witness := flag.Bool("witness", false, "vacuity twin: only count reached assertions")
+	hangs := flag.Bool("hangs", false, "report paths that exhaust the step/recursion bound as non-termination candidates")
 	known := flag.String("known", "", "json file with known findings")
 	leafBin := flag.String("leaf", "", "leaf server binary (native-lifted pure functions)")
 	solver := flag.String("solver", "z3", "z3 | z3-new | cvc5")
@@ -530,7 +551,7 @@ func main() {
 		defer pprof.StopCPUProfile()
 	}
 
-	cfg := Config{Tier: *tier, MaxDepth: *maxDepth, MaxSteps: *maxSteps, MaxPaths: *maxPaths, Timeout: *timeout, Witness: *witness, Workers: *workers}
+	cfg := Config{Tier: *tier, MaxDepth: *maxDepth, MaxSteps: *maxSteps, MaxPaths: *maxPaths, Timeout: *timeout, Witness: *witness, Workers: *workers, Hangs: *hangs}
 	switch *solver {
 	case "z3", "z3-new":
 		cfg.SolverBin, cfg.SolverArgs = *solver, []string{"-in"}
